@@ -164,8 +164,48 @@ def run_window_history(chk, spec):
 		c12.run_aggregate(chk, s2, table=t)
 
 
-RUNNERS = {"key_forms_sequence": c12.run_key_forms_sequence, "nested_apply": c12.run_nested_apply, "window": run_window, "window_history": run_window_history, "agg_chain": c12.run_agg_chain, "label_keys": c12.run_label_keys}
+RUNNERS = {"same_function_twice": c12.run_same_function_twice, "repeated_name_after_other_table": c12.run_repeated_name_after_other_table, "key_forms_sequence": c12.run_key_forms_sequence, "nested_apply": c12.run_nested_apply, "window": run_window, "window_history": run_window_history, "agg_chain": c12.run_agg_chain, "label_keys": c12.run_label_keys}
 RUNNERS["recompute"] = recompute.runner("C13")
+
+def run_writing_callback(chk, spec):
+	"""an apply function that WRITES to the aggregated column - a cell of a group not yet reached - while the call runs: window gives every row what aggregate computes with the very
+	same function on an equal table (both read the column as it was when its aggregation started, or both do not: they agree)"""
+	import warnings
+	def build():
+		return Table({"k": ["a", "b", "a", "c", "b", "c"], "v": [1, 2, 3, 4, 5, 6]})
+	def make(t):
+		state = {"done": False}
+		def f(vals):
+			if not state["done"]:
+				state["done"] = True
+				col = t["v"]
+				{"last-row": lambda: col.__setitem__(5, 100), "all-later-rows": lambda: col.__setitem__(slice(1, 6), [20, 3, 40, 50, 60]), "table-cell": lambda: t.__setitem__((3, "v"), 400), "promoting": lambda: col.__setitem__(5, 6.5)}[spec["write"]]()
+			return sum(vals)
+		return f
+	with warnings.catch_warnings():
+		warnings.simplefilter("ignore")
+		ta, tw = build(), build()
+		extra = {"sum_over": "v"} if spec["with_builtin"] else {}
+		a = call(lambda: ta.aggregate(over="k", apply={"s": ("v", make(ta))}, **extra))
+		w = call(lambda: tw.window(over="k", apply={"s": ("v", make(tw))}, **extra))
+	chk.judged("window-vs-aggregate", ("writing-callback", spec["write"], spec["with_builtin"]))
+	if a.ok != w.ok:
+		chk.fail("window's output equals aggregate's output joined back to the rows on the partition key", f"window/writing-callback/{'window-raises' if a.ok else 'aggregate-raises'}", f"{spec!r}: aggregate {short(a, 120)}; window {short(w, 120)}")
+		return
+	if not a.ok:
+		return
+	an, ac = J.cells(a.value)
+	wn, wc = J.cells(w.value)
+	per = dict(zip(ac[0], zip(*ac[1:])))
+	for i, key in enumerate(wc[0]):
+		wrow = tuple(c[i] for c in wc[1:])
+		if wrow != per.get(key):
+			chk.fail("window's output equals aggregate's output joined back to the rows on the partition key", f"window/writing-callback/differs-from-aggregate/{spec['write']}", f"{spec!r}: row {i} (key {key!r}): window {wrow!r}, aggregate {per.get(key)!r}; columns {wn!r}")
+			return
+
+
+RUNNERS["writing_callback"] = run_writing_callback
+
 
 def run_label_value_columns(chk, spec):
 	"""several window calls in one process over aggregated columns whose labels compare equal without being the same (True, 1, 1.0 ...): each call's header is the
@@ -195,6 +235,9 @@ def run(chk):
 		for fn in ("sum", "max"):
 			chk.case("label_value_columns", {"sequence": list(seq), "fn": fn}, "label-value-columns")
 	c12.key_form_cases(chk, "window")
+	for write in ("last-row", "all-later-rows", "table-cell", "promoting"):
+		for with_builtin in (False, True):
+			chk.case("writing_callback", {"write": write, "with_builtin": with_builtin}, "writing-callback")
 	for spec in c12.directed_specs("window"):
 		chk.case("window", spec, "window-directed")
 	for inner in ("aggregate", "window"):
